@@ -17,6 +17,9 @@ var EvilKinds = []string{
 	"nonce-absent", "nonce-other", "nonce-empty", "nonce-case", "replay-other-sessions-token",
 	// a matching "authorized party" does not make up for an audience that does not contain the client
 	"aud-other-azp-client", "aud-absent-azp-client", "aud-suffix-azp-client", "aud-other-array-azp-client",
+	// other serialisations of a JWT that an unverified parse accepts: a bare JSON claims object (no signature at all)
+	// and JSON-serialised JWS objects carrying a foreign signature or none
+	"json-claims-object", "json-jws-flattened-foreign", "json-jws-general-foreign", "json-jws-general-no-signatures",
 }
 
 // EvilLoginOnly are grammar elements that are invalid at login only (the statement requires the nonce "at login").
@@ -192,6 +195,22 @@ func (p *SimIdP) evilToken(kind string, key *Key, claims map[string]any, login *
 	case "nonce-empty":
 		c["nonce"] = ""
 		return good()
+	case "json-claims-object":
+		b, _ := json.Marshal(c)
+		return string(b)
+	case "json-jws-flattened-foreign", "json-jws-general-foreign", "json-jws-general-no-signatures":
+		seg := strings.Split(Mint(KeyEvilEC, nil, c), ".")
+		var v map[string]any
+		switch kind {
+		case "json-jws-flattened-foreign":
+			v = map[string]any{"protected": seg[0], "payload": seg[1], "signature": seg[2]}
+		case "json-jws-general-foreign":
+			v = map[string]any{"payload": seg[1], "signatures": []any{map[string]any{"protected": seg[0], "signature": seg[2]}}}
+		default:
+			v = map[string]any{"payload": seg[1], "signatures": []any{}}
+		}
+		b, _ := json.Marshal(v)
+		return string(b)
 	case "nonce-case":
 		c["nonce"] = flipCase(login.Nonce)
 		return good()
